@@ -8,6 +8,8 @@ import PyamgV.Proofs.Jacobi
 import PyamgV.Proofs.Kaczmarz
 import PyamgV.Proofs.GsAdjoint
 import PyamgV.Proofs.ExtRelaxRefine
+import PyamgV.Proofs.ExtC09Block
+import PyamgV.Proofs.ExtC09Kaczmarz
 
 /-! # C09 — relaxation sweeps compute exactly their defining splitting update
 
@@ -131,6 +133,80 @@ example : RowOK (R := Rat) 0 [(1, -1), (0, 2)] (fun _ => 1) (fun _ => 1) :=
 example : K.pyGaussSeidel (α := Rat) (3/2) ⟨2, #[0, 2, 4], #[1, 0, 0, 1], #[-1, 2, -1, 2]⟩ #[1, 1] 2 .symmetric #[1, 1]
     = #[1, 1] := by decide +kernel
 example : K.pyJacobi (α := Rat) (2/3) ⟨2, #[0, 2, 4], #[1, 0, 0, 1], #[-1, 2, -1, 2]⟩ #[1, 1] 3 #[1, 1]
+    = #[1, 1] := by decide +kernel
+
+
+/-! ### extension E15: block, polynomial, normal-equation and Schwarz relaxation (Model/ExtC09Block.lean)
+
+The executable models `K.blockJacobi`, `K.blockGaussSeidel`, `K.pyPolynomial`, `K.pyJacobiNE`,
+`K.gaussSeidelNE`, `K.gaussSeidelNR`, `K.schwarzSweep` and their Python drivers are the definitions the
+correspondence run (part D of the check) executes on `Rat` / Gaussian rationals against the public functions;
+inverse blocks are inputs.  Over any field, any storage pattern, any `x`, `b`: -/
+
+/-- block Jacobi, kernel form: swept block rows become `(1-ω) x_i + ω Dinv_i (b_i − Σ_{j≠i} A_ij x_j)`, the others
+are untouched (sweep closed under the block columns it reads: always true for the driver's full sweep) -/
+restate block_jacobi_entry := PyamgV.ExtC09.blockJacobi_entry
+/-- block Jacobi = `x + ω D⁻¹(b − A x)` on the swept block rows when `Dinv_i A_ii = I` -/
+restate block_jacobi_splitting := PyamgV.ExtC09.blockJacobi_splitting
+restate block_jacobi_fixed_point := PyamgV.ExtC09.blockJacobi_fixed_point
+/-- the Python driver `block_jacobi`: one iteration = one full-range kernel call; exact solution fixed for every
+`omega`, `iterations` -/
+restate py_block_jacobi_one := PyamgV.ExtC09.pyBlockJacobi_one
+restate py_block_jacobi_fixed_point := PyamgV.ExtC09.pyBlockJacobi_fixed_point
+/-- block Gauss-Seidel row step, kernel form and splitting form (`x_i += Dinv_i (b − A x)_i`) -/
+restate block_gs_step_entry := PyamgV.ExtC09.bgsStep_entry
+restate block_gs_step_splitting := PyamgV.ExtC09.bgsStep_splitting
+/-- each swept block row satisfies its block equation right after its update (`A_ii Dinv_i = I`) -/
+restate block_gs_step_residual_zero := PyamgV.ExtC09.bgsStep_residual_zero
+restate block_gs_fixed_point := PyamgV.ExtC09.blockGaussSeidel_fixed_point
+/-- the Python driver `block_gauss_seidel`: symmetric = forward then backward with the caller's `Dinv`; exact
+solution fixed for every sweep and `iterations` -/
+restate py_block_gs_symmetric := PyamgV.ExtC09.pyBlockGaussSeidel_symmetric
+restate py_block_gs_fixed_point := PyamgV.ExtC09.pyBlockGaussSeidel_fixed_point
+/-- Horner's scheme of `polynomial` evaluates `p(T) v` (Mathlib `Polynomial.aeval`, coefficients highest degree first) -/
+restate horner_eq_aeval := PyamgV.ExtC09.hornerV_eq_aeval
+/-- one iteration of `polynomial` is `x + p(A)(b − A x)`; the `norm(x) == 0` shortcut changes nothing -/
+restate polynomial_step := PyamgV.ExtC09.polyStep_eq
+restate polynomial_fixed_point := PyamgV.ExtC09.pyPolynomial_fixed_point
+/-- `gauss_seidel_ne` row step: `x ← x + δ a_iᴴ`, `δ = ω Dinv_i (b_i − ⟨a_i,x⟩)` (Kaczmarz) -/
+restate ne_step_entry := PyamgV.ExtC09.neStep_entry
+restate ne_kernel_is_steps := PyamgV.ExtC09.gaussSeidelNE_eq
+restate ne_fixed_point := PyamgV.ExtC09.gaussSeidelNE_fixed_point
+restate py_ne_fixed_point := PyamgV.ExtC09.pyGaussSeidelNE_fixed_point
+/-- ... which for real scalars and `Dinv_i = 1/⟨a_i,a_i⟩` is the damped orthogonal projection of the error of
+Proofs/Kaczmarz.lean; Euclidean error norm non-increasing for `0 ≤ ω ≤ 2` -/
+restate ne_step_error_projection := PyamgV.ExtC09.neStep_error_projection
+restate ne_step_error_nonexp := PyamgV.ExtC09.neStep_error_nonexp
+/-- `gauss_seidel_nr` column step: `r −= δ A e_i`, keeps `r = b − A x`; projection of the residual along the column -/
+restate nr_kernel_is_steps := PyamgV.ExtC09.gaussSeidelNR_eq
+restate nr_step_residual_entry := PyamgV.ExtC09.nrStep_r
+restate nr_step_keeps_residual := PyamgV.ExtC09.nrStep_residual
+restate nr_step_residual_projection := PyamgV.ExtC09.nrStep_residual_projection
+restate nr_step_residual_nonexp := PyamgV.ExtC09.nrStep_residual_nonexp
+restate py_nr_fixed_point := PyamgV.ExtC09.pyGaussSeidelNR_fixed_point
+/-- the Python driver `jacobi_ne`: one iteration = `x + ω Aᴴ diag(A Aᴴ)⁻¹ (b − A x)` -/
+restate jacobi_ne_kernel_entry := PyamgV.ExtC09.jacobiNE_entry
+restate py_jacobi_ne_step := PyamgV.ExtC09.pyJacobiNE_step_entry
+restate py_jacobi_ne_fixed_point := PyamgV.ExtC09.pyJacobiNE_fixed_point
+/-- Schwarz: `x|_d += T_d (b − A x)|_d`; with `A|_d T_d = I` every row of the subdomain is solved exactly -/
+restate schwarz_step_entry := PyamgV.ExtC09.schwarzStep_entry
+restate schwarz_step_residual_zero := PyamgV.ExtC09.schwarzStep_residual_zero
+restate schwarz_fixed_point := PyamgV.ExtC09.schwarzSweep_fixed_point
+restate py_schwarz_fixed_point := PyamgV.ExtC09.pySchwarz_fixed_point
+
+/-! non-vacuity: a 2×2-block system `[[2,1],[1,1]]` with its exact inverse `[[1,-1],[-1,2]]` meets `LeftInv` and
+`RightInv`; the drivers reproduce / solve on it -/
+example : ExtC09.LeftInv (R := Rat) ⟨1, 2, #[0, 1], #[0], #[2, 1, 1, 1]⟩ #[1, -1, -1, 2] 0 := by
+  unfold ExtC09.LeftInv; decide +kernel
+example : ExtC09.RightInv (R := Rat) ⟨1, 2, #[0, 1], #[0], #[2, 1, 1, 1]⟩ #[1, -1, -1, 2] 0 := by
+  unfold ExtC09.RightInv; decide +kernel
+example : K.pyBlockGaussSeidel (α := Rat) ⟨1, 2, #[0, 1], #[0], #[2, 1, 1, 1]⟩ #[3, 2] #[1, -1, -1, 2] 1 .forward #[5, 7]
+    = some #[1, 1] := by decide +kernel
+example : K.pyBlockJacobi (α := Rat) (1/2) ⟨1, 2, #[0, 1], #[0], #[2, 1, 1, 1]⟩ #[3, 2] #[1, -1, -1, 2] 2 #[1, 1]
+    = some #[1, 1] := by decide +kernel
+example : K.pyPolynomial (α := Rat) ⟨2, #[0, 2, 4], #[0, 1, 0, 1], #[2, -1, -1, 2]⟩ #[1, 1] [1/2, 1] 1 #[0, 0]
+    = some #[3/2, 3/2] := by decide +kernel
+example : K.pyGaussSeidelNE (α := Rat) id 1 ⟨2, #[0, 2, 4], #[0, 1, 0, 1], #[1, 1, 1, -1]⟩ #[2, 0] none 1 .forward #[0, 0]
     = #[1, 1] := by decide +kernel
 
 /-! ### interface facts regenerated from the working tree on every run (translator tie) -/
